@@ -10,8 +10,8 @@ TRUST = ("Trusted: the VC generator govc (SSA->SMT translation, memory model, lo
 
 claimed = {
  "C07": dict(
-   text="Deductive proof with a ghost state variable 'an error-level line has been logged' (log lines whose literal format starts with one of colog's error-level headers, including the two that cmd/gosk registers after the repair): TraverseAST logs one for every statement whose mnemonic has no pass-1 handler (for every content of the handler table); ocodeClient.Emit logs one, and appends nothing, whenever a line cannot be turned into an ocode (after the first repair); processDW and processDD hand exactly one value per operand to the emitter or have logged an error (loop invariant over operand lists of any length: no operand is dropped silently; after the second repair, which makes the capitalised 'Error...' lines error-level); main registers those headers.",
-   note=TRUST + " PARTIAL: the other pass-1 handlers (instruction operand shapes), undefined jump targets (placeholder entries are never checked), GenerateX86's reporting of processOcode failures, and the link to the exit status are not decided. TraverseAST's mode clause and frame are trusted, its panic sites not analysed. Two fix commits belong to this property.",
+   text="Deductive proof with a ghost state variable 'an error-level line has been logged' (log lines whose literal format starts with one of colog's error-level headers, including the two that cmd/gosk registers after the repair): TraverseAST logs one for every statement whose mnemonic has no pass-1 handler (for every content of the handler table); ocodeClient.Emit logs one, and appends nothing, whenever a line cannot be turned into an ocode (after the first repair); processDW and processDD hand exactly one value per operand to the emitter or have logged an error (loop invariant over operand lists of any length: no operand is dropped silently; after the second repair, which makes the capitalised 'Error...' lines error-level); GenerateX86 reports every ocode whose code generation returns an error (ghost variable for the callee's failure); main registers those headers.",
+   note=TRUST + " PARTIAL: the other pass-1 handlers (instruction operand shapes), undefined jump targets (placeholder entries are never checked), and the link to the exit status are not decided. TraverseAST's mode clause and frame are trusted, its panic sites not analysed. Two fix commits belong to this property.",
    design="DESIGN.md section 4, C07"),
  "C08": dict(
    text="Deductive proof over the real COFF writer. CoffFormat.Write (layout arithmetic with loop invariants for any number of symbols): the symbol table starts at 20+3*40+len(code), the header's symbol count is the number of 18-byte records (main + auxiliary, recursive spec) actually appended, the buffer handed to the file is 140+len(code)+18*count+4+len(strings) bytes long, the string-table size field is len(strings)+4, header values (machine 0x14c, 3 sections, no optional header) and section header values (.text size = code size at offset 140, .data/.bss empty, names) are as specified, exactly one write on success. generateSymbolEntries / convertNameToBytes: fixed symbols and their auxiliary records, every record announces exactly the auxiliary records that follow, user symbols are externals of section 0 or 1, entry count, name fields inline or as a string-table offset that points at the name (data-structure invariant over all keys of the de-duplication map).",
